@@ -81,6 +81,16 @@ let run_sink toks =
           s := s';
           let r = match rep with Some (a, b) -> dz a ^ "," ^ dz b | None -> "-,-" in
           Printf.sprintf "%s,%s,%s" (dz rc) (sink_state s') r
+        | "C" ->
+          (* complete with NULL counter pointers (mask bit 0: bytes_in wanted, bit 1: bytes_out wanted): the model's
+             report is what WOULD be stored; the state change does not depend on the pointers *)
+          let mask = int_of_string (List.nth parts 1) in
+          let (s', (rc, rep)) = sink_step junk !s (SComplete false) in
+          s := s';
+          let r = match rep with
+            | Some (a, b) -> (if mask land 1 <> 0 then dz a else "-") ^ "," ^ (if mask land 2 <> 0 then dz b else "-")
+            | None -> "-,-" in
+          Printf.sprintf "%s,%s,%s" (dz rc) (sink_state s') r
         | "d" ->
           let fl = if List.length parts > 1 then List.nth parts 1 else "" in
           let (rc, dv) = sink_destroy !s (String.contains fl 'F') (String.contains fl 'C') in
@@ -142,6 +152,12 @@ let run_source toks =
         | "a" -> let r = step (RAlign (n (), read_fault parts 2)) in Printf.sprintf "%s,%s" (dz r.o_rc) (src_state !s)
         | "c" -> let r = step RComplete in
           let rep = match r.o_rep with Some (a, b) -> dz a ^ "," ^ dz b | None -> "-,-" in
+          Printf.sprintf "%s,%s,%s" (dz r.o_rc) (src_state !s) rep
+        | "C" -> let mask = int_of_string (List.nth parts 1) in
+          let r = step RComplete in
+          let rep = match r.o_rep with
+            | Some (a, b) -> (if mask land 1 <> 0 then dz a else "-") ^ "," ^ (if mask land 2 <> 0 then dz b else "-")
+            | None -> "-,-" in
           Printf.sprintf "%s,%s,%s" (dz r.o_rc) (src_state !s) rep
         | "m" -> let r = step RMirrorOn in dz r.o_rc
         | "z" -> let _ = step (RResize (n ())) in "0"
